@@ -66,6 +66,12 @@ type FnEnc struct {
 	oblCount map[string]int
 	arrViews []string
 	viewElem map[string]bool
+	elemwise map[*ssa.Alloc]bool
+	escaped  map[*ssa.Alloc]bool
+	escOut   map[int]map[*ssa.Alloc]bool
+	curPos   token.Pos
+	parent   *FnEnc // inlining caller (its unescaped locals survive our havocs too)
+	locals   []*ssa.Alloc
 }
 
 type deferredCall struct {
@@ -513,6 +519,21 @@ func callsRecover(fn *ssa.Function) bool {
 func (f *FnEnc) enterBlock(b *ssa.BasicBlock, entryReach Term, entrySt *State) {
 	e := f.e
 	f.taint = ""
+	// escape facts are path-sensitive: a local has escaped here if it has on some predecessor
+	// (loop bodies: anything escaping inside the loop has escaped at the header)
+	f.escaped = map[*ssa.Alloc]bool{}
+	for _, p := range b.Preds {
+		for a := range f.escOut[p.Index] {
+			f.escaped[a] = true
+		}
+	}
+	if li := f.loops[b]; li != nil {
+		for lb := range li.body {
+			for _, ins := range lb.Instrs {
+				f.noteEscapesInto(ins, f.escaped)
+			}
+		}
+	}
 	if b.Index == 0 {
 		f.reach = entryReach
 		f.st = entrySt.clone()
@@ -586,8 +607,8 @@ func (f *FnEnc) enterBlock(b *ssa.BasicBlock, entryReach Term, entrySt *State) {
 	}
 	// 2. havoc what the loop modifies
 	ws := f.loopWrites(li)
-	preSt := f.st
-	f.st = e.havocState(preSt, func(c *Comp) bool { return !ws.all && !ws.names[c.Name] && !(ws.extern && !c.Repo) })
+	_ = f.st
+	f.st = f.havocWrites(ws)
 	for _, ins := range b.Instrs {
 		phi, ok := ins.(*ssa.Phi)
 		if !ok {
@@ -649,6 +670,7 @@ type writeSet struct {
 	all    bool
 	extern bool
 	names  map[string]bool
+	fresh  map[string]bool // written only inside objects the writer allocated itself
 }
 
 func (f *FnEnc) loopWrites(li *loopInfo) writeSet {
@@ -729,6 +751,10 @@ func (f *FnEnc) execBlock(b *ssa.BasicBlock) {
 		if e.budget < 0 {
 			e.unsup("instruction budget exceeded")
 		}
+		f.noteEscapes(ins)
+		if ins.Pos().IsValid() {
+			f.curPos = ins.Pos()
+		}
 		if f.execInstrSafe(ins) {
 			// terminated (panic / unsupported abort)
 			break
@@ -737,6 +763,10 @@ func (f *FnEnc) execBlock(b *ssa.BasicBlock) {
 	f.outReach[b.Index] = f.reach
 	f.outState[b.Index] = f.st
 	f.outTaint[b.Index] = f.taint
+	if f.escOut == nil {
+		f.escOut = map[int]map[*ssa.Alloc]bool{}
+	}
+	f.escOut[b.Index] = f.escaped
 }
 
 // execInstrSafe runs one instruction; unsupported constructs havoc their result and taint.
@@ -760,7 +790,7 @@ func (f *FnEnc) execInstrSafe(ins ssa.Instruction) (stop bool) {
 			} else {
 				f.e.abstracted[fnDisplayName(f.fn)+": "+msg+" (havocked)"] = true
 			}
-			f.st = f.e.havocState(f.st, nil)
+			f.st = f.havocWrites(writeSet{all: true})
 			if v, ok := ins.(ssa.Value); ok {
 				func() {
 					defer func() {
@@ -949,4 +979,72 @@ func rangeBound(b *ssa.BasicBlock, phi *ssa.Phi) ssa.Value {
 		return nil
 	}
 	return cmp.Y
+}
+
+// rootAllocOf follows field/element address computations back to a local allocation.
+func rootAllocOf(v ssa.Value) *ssa.Alloc {
+	for {
+		switch x := v.(type) {
+		case *ssa.FieldAddr:
+			v = x.X
+		case *ssa.IndexAddr:
+			if _, isPtr := x.X.Type().Underlying().(*types.Pointer); !isPtr {
+				return nil
+			}
+			v = x.X
+		case *ssa.Alloc:
+			return x
+		default:
+			return nil
+		}
+	}
+}
+
+// noteEscapes records when the address of a local variable (or of a part of it) leaves the
+// function's hands: from then on callees may write it. Until then havocs preserve it.
+func (f *FnEnc) noteEscapes(ins ssa.Instruction) {
+	if f.escaped == nil {
+		f.escaped = map[*ssa.Alloc]bool{}
+	}
+	if x, ok := ins.(*ssa.Alloc); ok {
+		f.locals = append(f.locals, x)
+		return
+	}
+	f.noteEscapesInto(ins, f.escaped)
+}
+
+func (f *FnEnc) noteEscapesInto(ins ssa.Instruction, esc map[*ssa.Alloc]bool) {
+	mark := func(v ssa.Value) {
+		if a := rootAllocOf(v); a != nil {
+			esc[a] = true
+		}
+	}
+	switch x := ins.(type) {
+	case *ssa.Alloc:
+		return
+	case *ssa.UnOp, *ssa.FieldAddr, *ssa.IndexAddr, *ssa.DebugRef:
+		return // reading through / deriving an address
+	case *ssa.Store:
+		mark(x.Val) // the address itself is stored somewhere
+		return
+	case *ssa.Call:
+		// a callee with a pure contract neither writes through nor retains its arguments
+		var spec *FuncSpec
+		if x.Call.IsInvoke() {
+			spec = f.e.R.forMethod(x.Call.Method)
+		} else if callee := x.Call.StaticCallee(); callee != nil {
+			if isLockNoop(callee.String()) {
+				return
+			}
+			spec = f.e.R.forFunc(callee)
+		}
+		if spec != nil && spec.Pure {
+			return
+		}
+	}
+	for _, op := range ins.Operands(nil) {
+		if *op != nil {
+			mark(*op)
+		}
+	}
 }
